@@ -268,6 +268,17 @@ func (x *Exec) evalIdent(env *SpecEnv, name string) Val {
 				return Val{T: x.iAdd(pv.T, one), Typ: types.Typ[types.Int]}
 			}
 		}
+		// inside a loop nested in a range loop, $i is the index of the enclosing range
+		// loop's current element (= the number of elements it had visited before)
+		for b := env.at.Idom(); b != nil; b = b.Idom() {
+			for _, ins := range b.Instrs {
+				if phi, ok := ins.(*ssa.Phi); ok && phi.Comment == "rangeindex" {
+					if pv, ok := env.fr.vals[phi]; ok {
+						return Val{T: x.iAdd(pv.T, x.S.IdxLit(1)), Typ: types.Typ[types.Int]}
+					}
+				}
+			}
+		}
 		panic(specErr("$i used outside a range loop"))
 	}
 	if env.fr != nil {
